@@ -240,7 +240,7 @@ def make_cases(rng, nproj, root):
                 qs.append((m, lastline, last))
         for m in NOPOS_METHODS:
             qs.append((m, 0, 0))
-        cases.append(dict(id=len(cases), root=proot, path=path, source=source, queries=qs))
+        cases.append(dict(id=len(cases), root=proot, path=path, source=source, queries=qs, files=files if with_path else {}))
 
     pid = 0
     for files, src in CORPUS:
@@ -556,6 +556,21 @@ class Intern:
     @classmethod
     def text(cls):
         return '\n'.join(cls.defs) + '\n'
+
+    @classmethod
+    def closure(cls, term):
+        """the definitions a term needs, in order (makes a replayed case self-contained)"""
+        need, todo = set(), [term]
+        by_name = {}
+        for d in cls.defs:
+            by_name[d.split()[1]] = d
+        while todo:
+            t = todo.pop()
+            for n in re.findall(r'jv_i\d+', t):
+                if n not in need:
+                    need.add(n)
+                    todo.append(by_name[n])
+        return '\n'.join(d for d in cls.defs if d.split()[1] in need) + '\n'
 
 
 def gi_str(s):
@@ -1017,7 +1032,7 @@ class CoqJobs:
                 continue
             self.ctx.violation('obligation', dict(
                 what='correspondence %s: %s - model and implementation differ (the direct oracle of this stream did not fail on it)' % (name, what),
-                case=self.cases[i][:4000], meta=meta), nofail=True)
+                case=self.cases[i][:6000], defs=Intern.closure(self.cases[i][:6000]), meta=meta), nofail=True)
 
 
 # =====================================================================================
@@ -1188,7 +1203,7 @@ def report_differences(ctx, coq, stream, diffs):
                        predicted=bool(internal and memo['same_exception_raised_earlier_on_this_script']),
                        fresh_exception=memo['fresh_exception'], fresh_site=memo['fresh_site'])
         data = dict(stream=stream, method=m, source=d['case']['source'], path=d['case']['path'],
-                    line=d['query'][1], column=d['query'][2], model_flags=f,
+                    files=d['case'].get('files'), line=d['query'][1], column=d['query'][2], model_flags=f,
                     observed_a=d['rec_a'].get('final', d['rec_a'].get('exc')),
                     observed_b=d['rec_b'].get('final', d['rec_b'].get('exc')), **d.get('extra', {}))
         if m in ('complete', 'complete_fuzzy'):
@@ -1602,8 +1617,8 @@ def analyse_repeat(ctx, coq, tasks, results):
             changed = sorted(k for k in aft if aft[k] != bef.get(k))
             ctx.deviation(dict(stream='transients', cls='transient-not-restored', fields=','.join(changed),
                                raised=not rec['ok'], method=q[0]),
-                          dict(source=task['case']['source'], path=task['case']['path'], query=q, where=where,
-                               before=bef, after=aft, outcome=rec.get('exc', 'returned')),
+                          dict(source=task['case']['source'], path=task['case']['path'], files=task['case'].get('files'),
+                               query=q, where=where, before=bef, after=aft, outcome=rec.get('exc', 'returned')),
                           'after Script.%s (%s) the transient state %s differs from the state before' % (
                               q[0], 'raised %s' % rec['exc'].get('exc') if not rec['ok'] else 'returned', changed))
         if rec.get('trace') is None:
@@ -1750,25 +1765,58 @@ def run(ctx):
 
 def replay(ctx, path):
     rec = json.load(open(path))
-    print(json.dumps({k: v for k, v in rec.items() if k not in ('observed_a', 'observed_b')}, indent=1, ensure_ascii=False)[:2500])
+    print(json.dumps({k: v for k, v in rec.items() if k not in ('observed_a', 'observed_b', 'defs', 'case')},
+                     indent=None, ensure_ascii=False)[:3000])
     common.setup_jedi(os.path.join(ctx.tmp, 'cache'))
+    if rec.get('kind') == 'obligation' and rec.get('case'):
+        print('model check of the recorded case now (true = model and recorded observation agree):')
+        print(common.coq_show(IMPORTS, ['jcheck (%s)' % rec['case']], defs=rec.get('defs', '') + JDEFS)[-1500:])
+        return 0
+    enum = rec.get('enumeration') or rec.get('enumeration_2') or (rec.get('input') if isinstance(rec.get('input'), list) else None)
+    if enum and rec.get('source') is None:
+        from jedi.api import classes, helpers
+        modules = stub_modules()
+        specs = [(tuple(e[0]) if e[0] else None, e[1], e[2], e[3]) for e in enum]
+        objs = [classes.Name(object, SName(sp, modules)) for sp in specs]
+        back = {id(o): sp for o, sp in zip(objs, specs)}
+        print('implementation now: sorted_definitions(list)      =', [back[id(o)] for o in helpers.sorted_definitions(objs)])
+        print('implementation now: sorted_definitions(set(list)) =', [back[id(o)] for o in helpers.sorted_definitions(set(objs))])
+        gl = g_reslist([spec_res(sp) for sp in specs], lambda x: x, lambda x: 0)
+        print('model sort_defs / infer_out:')
+        print(common.coq_show(IMPORTS, ['sort_defs %s' % gl, 'infer_out %s' % gl], defs=Intern.text())[-2500:])
+        return 0
     src = rec.get('source')
-    if src is None or 'line' not in rec:
-        print('(obligation replay: see "what"/"case" above; re-run ./check C16 to re-evaluate the stream)')
-        if rec.get('case'):
-            print(common.coq_show(IMPORTS, ['let c := %s in c' % rec['case']])[:3000])
+    q = rec.get('query')
+    if src is None or ('line' not in rec and not q):
+        print('(nothing to re-execute for this record; re-run ./check C16)')
         return 0
     install_capture()
     case = dict(id=0, root=None, path=None, source=src, queries=[])
     if rec.get('path'):
-        print('(the project files of the original run are gone; replaying the buffer without its siblings)')
+        root = os.path.join(ctx.tmp, 'replay_project')
+        for rel, txt in (rec.get('files') or {}).items():
+            fp = os.path.join(root, rel)
+            os.makedirs(os.path.dirname(fp), exist_ok=True)
+            open(fp, 'w').write(txt)
+        os.makedirs(root, exist_ok=True)
+        open(os.path.join(root, 'main.py'), 'w').write(src)
+        case.update(root=root, path=os.path.join(root, 'main.py'))
+    if q and 'line' not in rec:
+        install_tracing()
+        r = run_traced(make_script(case), q[0], q[1], q[2], case['root'])
+        print('implementation now: Script.%s(%s, %s) %s' % (q[0], q[1], q[2], 'raised %s' % r['exc'] if not r['ok'] else 'returned'))
+        print('  transient state before:', r['before'])
+        print('  transient state after: ', r['after'])
+        print('  writes recorded: %d' % r['trace_len'])
+        return 0
     outs = []
-    for k in range(4):
-        r = run_one(make_script(case), rec['method'], rec['line'], rec['column'], None)
+    keep = []
+    for k in range(6):
+        r = run_one(make_script(case), rec['method'], rec['line'], rec['column'], case['root'])
         outs.append(final_view(rec['method'], r))
-        junk = [object() for _ in range(1000 * (k + 1))]
-    print('implementation now returns (4 fresh Scripts in this process):')
-    for o in outs:
-        print('  ', str(o)[:600])
+        keep.append([object() for _ in range(997 * (k + 1))])
+    print('implementation now returns (6 fresh Scripts in this process, heap shifted in between):')
+    for o in sorted(set(outs)):
+        print('  %d x %s' % (outs.count(o), str(o)[:700]))
     print('all equal in this process:', len(set(outs)) == 1)
     return 0
